@@ -192,7 +192,11 @@ def classify(cname, p, bad_stream=False):
             ok[name] = False
             continue
         ok[name] = True
-        if kind == "pos" and not v > 0:
+        if isinstance(v, float) and v != v and kind in ("pos", "prob"):
+            # NaN satisfies none of the documented conditions (mean > 0, 0 <= p <= 1): outside the domain.
+            # (parameters without a documented condition - mu, constant - are not judged)
+            value_bad.append((name, "nan"))
+        elif kind == "pos" and not v > 0:
             value_bad.append((name, "not-positive"))
         elif kind == "prob" and not 0 <= v <= 1:
             value_bad.append((name, "outside-0-1"))
@@ -841,6 +845,8 @@ def _valid_params(draw, cname):
 
 def _invalid_alternatives(kind):
     alts = [["str", "1.0"], ["none"], ["list"], ["complex"]]
+    if kind in ("pos", "prob"):
+        alts += ["nan", "nan"]
     if kind == "pos":
         alts += [0, _hx(0.0), _hx(-1.0), -3, _hx(-1e-3)]
     elif kind == "prob":
